@@ -103,7 +103,7 @@ impl ColorPainter for CountPainter {
 }
 
 pub fn hostile_sizes() -> Vec<Size> {
-    vec![Size::unscaled(), Size::new(16.0), Size::new(0.0), Size::new(-3.0), Size::new(1.0e-30), Size::new(3.0e9), Size::new(f32::MAX), Size::new(f32::INFINITY), Size::new(f32::NEG_INFINITY), Size::new(f32::NAN), Size::new(7.3)]
+    vec![Size::unscaled(), Size::new(16.0), Size::new(1000.0), Size::new(0.0), Size::new(-3.0), Size::new(1.0e-30), Size::new(3.0e9), Size::new(f32::MAX), Size::new(f32::INFINITY), Size::new(f32::NEG_INFINITY), Size::new(f32::NAN), Size::new(7.3)]
 }
 
 pub fn hostile_locations(axes: usize) -> Vec<Vec<F2Dot14>> {
